@@ -326,6 +326,10 @@ func genReq(rt *rapid.T, l string, faulty bool) Req {
 			r.Result.NullAtRow = rapid.IntRange(1, 4).Draw(rt, l+".nullat")
 		}
 	}
+	if faulty && r.Result.NullAtRow == 0 && rapid.IntRange(0, 7).Draw(rt, l+".nullany?") == 0 {
+		// any statement may return a row the reader cannot scan
+		r.Result.NullAtRow = rapid.IntRange(1, 4).Draw(rt, l+".nullanyat")
+	}
 	if strings.HasPrefix(r.Kind, "prof") || r.Kind == "render_diff" {
 		// what the Pyroscope tables hold: well formed, or (with faults on) any shape a database can return
 		shapes := []int{0, 0, 0, 3, 8}
